@@ -1,11 +1,11 @@
 #!/bin/sh
 # run every seeded change against its property's quick check and record the outcome in meta.json
-cd /verif
+HERE=$(cd "$(dirname "$0")/.." && pwd); cd "$HERE"
 for d in seeded/*/; do
   n=$(basename $d); id=${n%-*}
   p=$d/patch.diff
   for alt in $d/patch_rebased_*.diff; do [ -f "$alt" ] && p=$alt; done
-  out=$(tools/try_seed.sh /verif/$p $id 2>&1); rc=$?
+  out=$(tools/try_seed.sh "$HERE/$p" $id 2>&1); rc=$?
   v=$(echo "$out" | grep "^violations:" | head -1 | sed 's/violations: //')
   first=$(echo "$out" | grep "^VIOLATION" | head -1 | sed 's/.*obligation=//' | cut -c1-200)
   python3 - "$d/meta.json" "$rc" "${v:-0}" "$first" "$(basename $p)" <<'PY'
